@@ -9,10 +9,13 @@ for d in seeded/s*; do
   if [ $# -gt 0 ]; then ok=0; for p in "$@"; do case "$n" in $p*) ok=1;; esac; done; [ $ok = 1 ] || continue; fi
   checks=$(python3 -c "import json,sys; print(' '.join(json.load(open('$d/meta.json')).get('detected_by') or []))")
   [ -z "$checks" ] && { echo "$n: (recorded as not detected)"; continue; }
-  c1=$(echo $checks | cut -d' ' -f1)
-  out=$(bin/reseed.sh "$n" $c1)
-  echo "$out"
-  total=$((total+1))
-  echo "$out" | grep -q "VIOLATION" || { miss=$((miss+1)); echo "REGRESSION: $n no longer detected by $c1"; }
+  total=$((total+1)); found=0
+  for c in $checks; do
+    out=$(bin/reseed.sh "$n" $c)
+    echo "$out"
+    if echo "$out" | grep -q "VIOLATION"; then found=1; break; fi
+    echo "NOTE: $n not detected by $c in this run"
+  done
+  [ $found = 1 ] || { miss=$((miss+1)); echo "REGRESSION: $n no longer detected by any of: $checks"; }
 done
 echo "reseed_all: $total changes re-run, $miss no longer detected"
